@@ -349,6 +349,18 @@ def run_property(prop, tier="quick", seed=0):
     if all_jobs:
         with ProcessPoolExecutor(max_workers=16, mp_context=mp.get_context("spawn")) as ex:
             out = list(ex.map(_discharge_smt2, all_jobs, chunksize=max(1, min(8, len(all_jobs) // 64))))
+    # second chance for obligations that came back without a verdict (timeouts under load must not turn into alarms): the few that are
+    # left are re-posed with three times the budget while the pool is otherwise idle
+    retry = [i for i, rec in enumerate(out) if rec.get("verdict") in ("unknown", "sat?") and not rec.get("known_finding")]
+    if retry and len(retry) <= 48:
+        jobs2 = [tuple(list(all_jobs[i][:6]) + [all_jobs[i][6] * 3] + list(all_jobs[i][7:])) for i in retry]
+        with ProcessPoolExecutor(max_workers=min(16, len(jobs2)), mp_context=mp.get_context("spawn")) as ex:
+            out2 = list(ex.map(_discharge_smt2, jobs2))
+        for i, rec2 in zip(retry, out2):
+            rec2["retried"] = True
+            if rec2.get("verdict") in ("unsat", "sat") or out[i].get("verdict") == "unknown":
+                rec2["time_s"] = round(rec2.get("time_s", 0) + out[i].get("time_s", 0), 3)
+                out[i] = rec2
     by_q = {}
     for job, rec in zip(all_jobs, out):
         by_q.setdefault(job[8] or job[1].split("/")[0] + "/" + job[1].split("/")[1], []).append(rec)
